@@ -1,14 +1,15 @@
 (* C04 — encoding is deterministic: the same input and the same sequence of library calls produce byte-identical
    output in every run and every process.  Statements only.
 
-   The property is FALSE of /repo as it stands (D11: with structurally equal types in the input, add_func_type answers
-   a request for such a type with a hash-seed-dependent id).  What is proved, for ALL inputs: every HashMap iteration on
-   the encode path is order-free except the one in ModuleTypes::new, and that one is order-free for every requested
-   type the input has at most once.  "Order" is an explicit parameter of the models (Model/HashOrder.v, Model/Types.v);
-   the tie to /repo is (a) the inventory theorem over Gen/GenHashIter.v, regenerated from /repo/src on every run:
-   the iterations classified in Model/HashIterSites.v are exactly the iterations over hash-typed values in the files
-   of the encode path, and there is no clock / thread / environment / RandomState / pointer-cast use in them; (b) the
-   k-process runs of harness/src/bin/determ.rs evaluated by Check/CheckDeterm.v. *)
+   What is proved, for ALL inputs: every HashMap iteration on the encode path is order-free.  Since the repair of D11
+   (ModuleTypes::new now sorts the keys of the HashMap before it fills the dedup map) this includes the type dedup map:
+   C04_types_map_order is unconditional.  "Order" is an explicit parameter of the models (Model/HashOrder.v,
+   Model/Types.v); the tie to /repo is (a) the inventory theorem over Gen/GenHashIter.v, regenerated from /repo/src on
+   every run: the iterations classified in Model/HashIterSites.v are exactly the iterations over hash-typed values in the
+   files of the encode path, none of them is order-dependent, and there is no clock / thread / environment / RandomState /
+   pointer-cast use in them; (b) the k-process runs of harness/src/bin/determ.rs evaluated by Check/CheckDeterm.v.
+   History: before the repair a request for a type the input has twice was answered with a hash-seed-dependent id
+   (C04_types_map_order_refuted keeps the witness, together with what the repaired code does on it). *)
 From Coq Require Import List NArith ZArith Bool Permutation.
 Import ListNotations.
 From Orca Require Import Util Flat Lowering Types CheckTypes TypesProofs HashOrder CheckDeterm DetermProofs.
@@ -55,22 +56,32 @@ Theorem C04_mapping_lookup_order_free :
 Proof. exact mapping_lookup_order_free. Qed.
 Print Assumptions C04_mapping_lookup_order_free.
 
-(* ---------- (iv) types_map, built by iterating HashMap<TypeID,Types> ---------- *)
+(* ---------- (iv) types_map: keys collected in hash order, sorted, inserted in ascending order ---------- *)
+
+(* whatever order `types.keys()` visits the ids in, the sorted list is the ascending one *)
+Theorem C04_sort_ids_canonical :
+  forall (n : nat) (o : list N), Permutation o (asc_ids n) -> sort_ids o = asc_ids n.
+Proof. exact sort_ids_canonical. Qed.
+Print Assumptions C04_sort_ids_canonical.
+
+(* UNCONDITIONAL -- also when the input has structurally equal types: under any two visiting orders ModuleTypes::new
+   builds the same dedup map (the one of the ascending order: of several equal types the highest id wins), every
+   add_type returns the same id and state, and so does every sequence of additions through the seven public paths *)
 Theorem C04_types_map_order :
   forall (types : list ctype) (o1 o2 : list N),
-    same_visits o1 o2 -> no_equal_types types ->
-    (forall t, lookup_map t (build_map types o1) = lookup_map t (build_map types o2))
-    /\ (forall groups ty,
-          fst (add_type ty (mkTS groups types (build_map types o1))) = fst (add_type ty (mkTS groups types (build_map types o2)))
-          /\ ts_types (snd (add_type ty (mkTS groups types (build_map types o1))))
-             = ts_types (snd (add_type ty (mkTS groups types (build_map types o2))))
-          /\ ts_groups (snd (add_type ty (mkTS groups types (build_map types o1))))
-             = ts_groups (snd (add_type ty (mkTS groups types (build_map types o2))))).
+    Permutation o1 (asc_ids (length types)) -> Permutation o2 (asc_ids (length types)) ->
+    build_map_sorted types o1 = build_map_sorted types o2
+    /\ build_map_sorted types o1 = build_map types (asc_ids (length types))
+    /\ (forall groups ty, add_type ty (mkTS groups types (build_map_sorted types o1))
+                          = add_type ty (mkTS groups types (build_map_sorted types o2)))
+    /\ (forall groups ops, api_run ops (mkTS groups types (build_map_sorted types o1))
+                           = api_run ops (mkTS groups types (build_map_sorted types o2))).
 Proof. exact types_map_order. Qed.
 Print Assumptions C04_types_map_order.
 
-(* the exact boundary of D11, for sequences of additions through the seven public paths: if no request is for a type
-   the input has twice, the returned ids and the emitted type section do not depend on the iteration order *)
+(* History (what made the pre-repair code deterministic outside D11; still true of insertion in an arbitrary order, no
+   longer needed): if no request is for a type the input has twice, the returned ids and the emitted type section do not
+   depend on the insertion order *)
 Theorem C04_partial_types :
   forall (base : tgroups) (o1 o2 : list N) (ops : list (N * ctype)),
     same_visits o1 o2 ->
@@ -80,14 +91,17 @@ Theorem C04_partial_types :
 Proof. exact types_map_order_seq. Qed.
 Print Assumptions C04_partial_types.
 
-(* D11 *)
+(* History of D11, and the repaired behaviour on the same witness: inserting in the visiting order itself, two orders
+   answered a request for a duplicated type with different ids; with the keys sorted first both answer 2 *)
 Theorem C04_types_map_order_refuted :
   exists (base : tgroups) o1 o2 ty,
-    same_visits o1 o2
+    Permutation o1 (asc_ids (length (flat base))) /\ Permutation o2 (asc_ids (length (flat base)))
     /\ ~ at_most_once ty (flat base)
     /\ fst (add_type ty (parse_types base o1)) <> fst (add_type ty (parse_types base o2))
-    /\ emit_types (snd (add_type ty (parse_types base o1))) = emit_types (snd (add_type ty (parse_types base o2))).
-Proof. exact types_map_order_refuted. Qed.
+    /\ fst (add_type ty (parse_types base (sort_ids o1))) = 2%N
+    /\ fst (add_type ty (parse_types base (sort_ids o2))) = 2%N
+    /\ parse_types base (sort_ids o1) = parse_types_asc base.
+Proof. exact types_map_order_history. Qed.
 Print Assumptions C04_types_map_order_refuted.
 
 (* ---------- (v) the inventory obligation ---------- *)
@@ -95,15 +109,15 @@ Theorem C04_inventory :
   map fst hash_site_status = gen_hash_sites
   /\ hash_decls_reviewed = gen_hash_decls
   /\ gen_other_sources = []
-  /\ order_dependent_classes = [11%N].
+  /\ order_dependent_classes = [].
 Proof.
   split; [exact hashiter_sites_covered|]. split; [exact hashiter_decls_covered|].
-  split; [|exact hashiter_order_dependent_is_D11].
+  split; [|exact hashiter_no_order_dependent].
   destruct hashiter_no_other_source as [H1 H2]. rewrite H1. exact H2.
 Qed.
 Print Assumptions C04_inventory.
 
-(* the class predicate evaluated on the harness cases is the hypothesis of C04_partial_types, on type tokens *)
+(* history: the former D11 class predicate (now a statistic) is the hypothesis of C04_partial_types, on type tokens *)
 Theorem C04_outside_D11_at_most_once :
   forall (base added : list N),
     d11_pred base added = false ->
@@ -113,7 +127,7 @@ Print Assumptions C04_outside_D11_at_most_once.
 
 (* ---------- the checker ---------- *)
 Theorem C04_checker_sound :
-  forall c, agree04 c = true -> known_D11 c = false ->
+  forall c, agree04 c = true ->
     holds04 c = true /\ forall a b, In a (dc_obs c) -> In b (dc_obs c) -> a = b.
 Proof. exact checker04_sound. Qed.
 Print Assumptions C04_checker_sound.
@@ -134,24 +148,31 @@ Example C04_ex_roe :
   /\ f_before (resolve_entries (roe_map [[FConst 1%Z]; [FConst 2%Z]]) ex_w) = [FConst 0%Z; FConst 1%Z; FConst 2%Z].
 Proof. split; vm_compute; reflexivity. Qed.
 
-(* a type section without equal types satisfies the hypotheses of C04_types_map_order; one request *)
+(* a type section WITH equal types (ids 0 and 2) satisfies the hypotheses of C04_types_map_order; both visiting orders
+   answer the request for the duplicated type with the highest id *)
 Example C04_ex_types :
-  let types := [d11_F [0%N] []; d11_F [1%N] []; d11_F [] [0%N]] in
-  no_equal_types types
-  /\ same_visits [0; 1; 2]%N [2; 0; 1]%N
-  /\ fst (add_type (d11_F [1%N] []) (mkTS [] types (build_map types [2; 0; 1]%N))) = 1%N.
+  let types := [d11_F [0%N] []; d11_F [1%N] []; d11_F [0%N] []] in
+  Permutation [2; 0; 1]%N (asc_ids (length types))
+  /\ Permutation [1; 2; 0]%N (asc_ids (length types))
+  /\ fst (add_type (d11_F [0%N] []) (mkTS [] types (build_map_sorted types [2; 0; 1]%N))) = 2%N
+  /\ fst (add_type (d11_F [0%N] []) (mkTS [] types (build_map_sorted types [1; 2; 0]%N))) = 2%N
+  (* without the sort the first order would have answered 0 *)
+  /\ fst (add_type (d11_F [0%N] []) (mkTS [] types (build_map types [2; 0; 1]%N))) = 0%N.
 Proof.
   cbn zeta. split; [|split].
-  - apply nodup_no_equal_types. repeat constructor; cbn [In]; intuition discriminate.
-  - intros id. cbn [In]. intuition.
-  - vm_compute. reflexivity.
+  - change (asc_ids 3) with [0; 1; 2]%N. apply Permutation_sym.
+    apply (perm_trans (l' := [0; 2; 1]%N)); [apply perm_skip, perm_swap|apply perm_swap].
+  - change (asc_ids 3) with [0; 1; 2]%N. apply Permutation_sym.
+    apply (perm_trans (l' := [1; 0; 2]%N)); [apply perm_swap|apply perm_skip, perm_swap].
+  - vm_compute. repeat split; reflexivity.
 Qed.
 
-(* the checker on a deterministic case, on a nondeterministic D11 case and on a nondeterministic case outside D11 *)
+(* the checker on a deterministic case, on a deterministic case that asks for a duplicated type, and on two
+   nondeterministic cases (now always a mismatch and an unlisted failure) *)
 Example C04_ex_checker :
   report_C04 [mkDC 0 false [5; 11] [11] [(0, 77); (0, 77)];
+              mkDC 2 false [5; 11; 5] [5] [(0, 77); (0, 77)];
               mkDC 2 false [5; 11; 5] [5] [(0, 77); (0, 78)];
-              mkDC 2 false [5; 11; 5] [11] [(0, 77); (0, 78)];
               mkDC 1 true [5] [] [(1, 0); (0, 77)]]%N
-  = (4, [2; 3], [2; 3], [(1, 11)], 4, 0)%N.
+  = (4, [2; 3], [2; 3], [], 4, 0)%N.
 Proof. vm_compute. reflexivity. Qed.
